@@ -245,6 +245,14 @@ pub fn parse(text: &str) -> Result<Program, Fault> {
         }
     }
     addr.push(a);
+    // a jump to the address of a label continues at the label, not at a marker that stands
+    // directly in front of it (a statement that emits no instruction, e.g. a match on a type
+    // without constructors, leaves its marker there)
+    for &i in labels.values() {
+        if i < addr.len() {
+            by_addr.insert(addr[i], i);
+        }
+    }
     Ok(Program { ins, addr, by_addr, labels, text_lines: nlines })
 }
 
@@ -423,6 +431,9 @@ impl<'p> Emu<'p> {
                 match ins {
                     Ins::Marker(m) => {
                         markers_seen += 1;
+                        if std::env::var("SCCV_TRACE").is_ok() {
+                            eprintln!("marker pc={pc} [{}]", m.text);
+                        }
                         if let Some(a) = audit.as_mut() {
                             a(&*self, m).map_err(Fault::HeapAudit)?;
                         }
